@@ -157,6 +157,14 @@ class Impl:
             return "ok"
         if op == "dset":
             return self.put_dset(t[1], DimensionSet(dim_list=[self.get(x, Dimension) for x in t[2:]]))
+        if op == "iarr":
+            dims = self.get(t[2], DimensionSet)
+            vals = np.array([int(num(v)) for v in t[4:]], dtype=int).reshape(shape(t[3]))
+            return self.put_arr(t[1], FlodymArray(dims=dims, values=vals))
+        if op in ("absi", "signi"):
+            x = self.get(t[1], FlodymArray)
+            (x.abs if op == "absi" else x.sign)(inplace=True)
+            return "ok " + fmt_arr(x)
         if op == "arr":
             dims = self.get(t[2], DimensionSet)
             vals = np.array([num(v) for v in t[4:]], dtype=float).reshape(shape(t[3]))
